@@ -329,8 +329,10 @@ def check_identity(text, docs, expects, level, ctx, case):
         objs = []
         err = None
         try:
-            for o in yaml.load_all(text, Loader=L):
-                objs.append(o)
+            st, _ = core.guarded(lambda: objs.extend(yaml.load_all(text, Loader=L)), 10)
+            if st == 'hang':
+                ctx.hang(who, {'what': 'constructing the document did not finish within 10 s, twice (a case takes milliseconds): hang suspected'})
+                continue
         except yaml.constructor.ConstructorError as e:
             err = e
         except yaml.YAMLError as e:
@@ -338,6 +340,10 @@ def check_identity(text, docs, expects, level, ctx, case):
             continue
         except RecursionError:
             ctx.violation(who, {'what': 'RecursionError while constructing a document with aliases'}, None)
+            continue
+        except MemoryError:
+            objs = None
+            ctx.hang(who, {'what': 'memory limit of the worker exhausted while constructing a small document: unbounded construction'})
             continue
         except Exception as e:
             ctx.violation(who, {'what': 'non-YAML exception while constructing', 'exc': type(e).__name__, 'msg': str(e)[:200]}, None)
@@ -442,12 +448,18 @@ def check_rule(text, kind, want, level, ctx, case, ndocs=1):
             got = 'ok'
             n = 0
             try:
-                for _ in getattr(yaml, op)(text, Loader=L):
-                    n += 1
+                cnt = []
+                st, _ = core.guarded(lambda: [cnt.append(1) for _ in getattr(yaml, op)(text, Loader=L)], 10)
+                n = len(cnt)
+                if st == 'hang':
+                    got = 'hang (10 s, twice)'
             except yaml.YAMLError as e:
+                n = len(cnt)
                 got = type(e).__name__
             except RecursionError:
                 got = 'RecursionError'
+            except MemoryError:
+                got = 'MemoryError (unbounded construction)'
             except Exception as e:
                 got = 'nonyaml:' + type(e).__name__
             ctx.stat('rule_probes')
